@@ -44,10 +44,11 @@ func wdayIndex(s string) int {
 type checker struct {
 	c     *evid.Ctx
 	evals int64
+	note  string // ambient state the helpers must not depend on (appended to messages)
 }
 
 func (k *checker) viol(key, msg string) {
-	k.c.Violation("C19:"+key, msg, map[string]interface{}{"engine": "E3", "detail": msg})
+	k.c.Violation("C19:"+key, msg+k.note, map[string]interface{}{"engine": "E3", "detail": msg + k.note})
 }
 
 // instant checks every helper at one millisecond instant.
@@ -248,6 +249,28 @@ func Run(c *evid.Ctx) {
 		}
 	})
 	c.Count("days", days)
+	// The helpers take the instant as an argument: what they answer for it does not depend on the
+	// package's server-time correction (SetDelta / SetServerTime), which only moves Now(). Every day of
+	// the century again, at the instants within |delta| of the day border, under four corrections.
+	for _, delta := range []int64{1500, -1500, dayMs, -3600000} {
+		dateutil.SetDelta(delta)
+		k.note = fmt.Sprintf(" [with the server-time correction SetDelta(%d) installed]", delta)
+		ad := delta
+		if ad < 0 {
+			ad = -ad
+		}
+		enum.ParallelRange(uint64(days), func(lo, hi uint64) {
+			for d := lo; d < hi; d++ {
+				for _, off := range []int64{0, 1, ad - 1, ad, ad + 1, dayMs - ad - 1, dayMs - ad, dayMs - ad + 1, dayMs - 1} {
+					if off >= 0 && off < dayMs {
+						k.instant(start+int64(d)*dayMs+off, true)
+					}
+				}
+			}
+		})
+	}
+	dateutil.SetDelta(0)
+	k.note = ""
 	if c.Thorough() {
 		// every second of the century
 		secs := uint64(days * 86400)
